@@ -807,7 +807,7 @@ func Prop() *fw.Property {
 		KnownPredicates: map[string]func(v *fw.Violation) bool{
 			// K19 (C10): a closepath directly after a moveto deletes the moveto
 			"moveto-directly-followed-by-closepath": func(v *fw.Violation) bool {
-				return v.Class == "grammar:geometry" && movetoCloseRe.MatchString(v.Case)
+				return strings.HasPrefix(v.Class, "grammar:") && movetoCloseRe.MatchString(v.Case) // the class_regex of the entry names the clauses
 			},
 			// one matcher per root cause seen on the pinned tree; where a class is shared by
 			// several possible causes the matcher also looks for the cause's signature
